@@ -123,7 +123,7 @@ def run_case(case, res):
         res.count("integer_valued_function")
     else:
         f = hooks.VFunction([hooks.comp_hash(case["seed"]), hooks.comp_smooth(case["seed"], d)])
-    err = hooks.RandErr(cfg["errseed"], cfg["profile"], d, cfg["a"], cfg["b"])
+    err = hooks.RandErr(cfg["errseed"], cfg["profile"], d, cfg["a"], cfg["b"], scale=cfg.get("errscale", 1.0))
     obs = Obs(res, f, cfg, err)
     obs.quiet = rng.random() < 0.3
     cfg["quiet_until_final_state"] = obs.quiet
